@@ -1,6 +1,8 @@
 (* C06 -- Absent is not invalid: defaults never mask bad values.
    Property theorems only; proofs live in Lemmas/.  `ev` is the evaluator of ANY inner parser. *)
-From BpafLemmas Require Import Tac CatchLaws.
+From Coq Require Import String.
+From BpafModel Require Import Message.
+From BpafLemmas Require Import Tac CatchLaws MessageLaws.
 
 (* The catchable ("absent") messages are exactly these six; the table is regenerated from
    src/error.rs on every run, so this theorem is re-checked against the code. *)
@@ -101,9 +103,43 @@ Proof. exact fallback_absent. Qed.
 Print Assumptions C06_optional_absent.
 Print Assumptions C06_fallback_absent.
 
+(* ... and the message carries the text: the rendered error (Model/Message.v = Message::render, compared byte for
+   byte with the library's stderr on every run) of a conversion / `parse` failure ends with `: ` and the
+   conversion error text, of a guard failure with the guard's message; a `some`/`fail`/`fallback_with` failure IS the
+   user's text.  (The evaluator reports these kinds untouched: render's first stage rewrites only `unconsumed item`
+   and `missing items`.) *)
+Theorem C06_message_carries_conversion_text :
+  forall s mix t d,
+    render_doc (RPlain (MsgParseFailed mix t)) s = Some d -> exists pre, doc_text d = pre ++ m_colon_sp ++ t.
+Proof. exact parse_failed_text. Qed.
+Print Assumptions C06_message_carries_conversion_text.
+
+Theorem C06_message_carries_guard_text :
+  forall s mix t d,
+    render_doc (RPlain (MsgGuardFailed mix t)) s = Some d -> exists pre, doc_text d = pre ++ t.
+Proof. exact guard_failed_text. Qed.
+Print Assumptions C06_message_carries_guard_text.
+
+Theorem C06_message_kinds_kept :
+  forall msg s m,
+    match msg with MsgUnconsumed _ | MsgMissing _ => False | _ => True end -> pre_render msg s m = Some (RPlain msg).
+Proof. exact pre_render_keeps. Qed.
+Print Assumptions C06_message_kinds_kept.
+
 (* non-vacuity: `--num x` under optional + fallback fails with the conversion text *)
 Example C06_example :
   let p := PFallback (POptional (PArg (mkNamed [] [[110;117;109]%N] [] None) [78%N] TyU32 false) false) VNone [] in
   exists m, run_inner (mkFeat true true false) (fun _ => None) (Options p default_info) None
                       [[45;45;110;117;109]%N; [120]%N] = OutStderr (MsgParseFailed (Some 1) m).
 Proof. eexists. vm_compute. reflexivity. Qed.
+
+(* ... and what stderr shows for it *)
+Example C06_example_text :
+  let p := PFallback (POptional (PArg (mkNamed [] [[110;117;109]%N] [] None) [78%N] TyU32 false) false) VNone [] in
+  match run_inner_state (mkFeat true true false) (fun _ => None) (Options p default_info) None [[45;45;110;117;109]%N; [120]%N] with
+  | (SFail (FStderr m), s') =>
+    option_map utf8_encode (render_message_text true m s' (meta_of p)) =
+    Some (bs "couldn't parse `x`: invalid digit found in string"%string)
+  | _ => False
+  end.
+Proof. vm_compute. reflexivity. Qed.
